@@ -2,7 +2,7 @@
 // /repo's working tree, -DBLOCH_VERIF), one forked child per case, and reports everything observable
 // plus (through the hooks) the simulator state and the evaluator's qubit bookkeeping.
 //
-// case file: one case per line:  run <path> [draws=a,b,c] [noexec] [shots=N] [twice]
+// case file: one case per line:  run <path> [draws=a,b,c] [noexec] [shots=N] [twice] [quiet]
 // output: one JSON object per line, in case order.
 #include <sys/wait.h>
 #include <unistd.h>
@@ -55,7 +55,8 @@ static const char* catName(support::ErrorCategory c) {
     }
 }
 
-struct Opts { std::string path; std::vector<double> draws; bool noexec = false; int shots = 1; bool twice = false; std::string after; };
+struct Opts { std::string path; std::vector<double> draws; bool noexec = false; int shots = 1; bool twice = false;
+    bool quiet = false; std::string after; };
 
 static void dumpEval(std::ostringstream& js, const runtime::RuntimeEvaluator& ev) {
     const auto& sim = runtime::VerifAccess::sim(ev);
@@ -128,6 +129,7 @@ static std::string runCase(const Opts& o) {
         if (!o.noexec) {
             for (int s = 0; s < o.shots; ++s) {
                 runtime::RuntimeEvaluator ev;
+                if (o.quiet) ev.setEcho(false);      // as the CLI does for every shot of a multi-shot run without --echo=all
                 try {
                     ev.execute(*program);
                 } catch (...) {
@@ -181,6 +183,7 @@ int main(int argc, char** argv) {
                 while (std::getline(ds, d, ',')) if (!d.empty()) o.draws.push_back(std::stod(d));
             } else if (tok == "noexec") o.noexec = true;
             else if (tok == "twice") o.twice = true;
+            else if (tok == "quiet") o.quiet = true;
             else if (tok.rfind("after=", 0) == 0) o.after = tok.substr(6);
             else if (tok.rfind("shots=", 0) == 0) o.shots = std::stoi(tok.substr(6));
         }
